@@ -1,24 +1,21 @@
 // scratch probes against the real API (no harness model in the loop)
+use automerge::transaction::{CommitOptions, Transactable};
 use automerge::*;
 
 fn main() {
-    let a = std::fs::read("/verif/out/dump/viol.bin").unwrap();
-    let enc = TextEncoding::UnicodeCodePoint;
-    let d = AutoCommit::load_with_options(&a, LoadOptions::new().text_encoding(enc)).unwrap();
-    let (_, t) = d.get(ROOT, "t").unwrap().unwrap();
-    println!("text = {:?} len {}", d.text(&t).unwrap(), d.length(&t));
-    println!("marks = {:?}", d.marks(&t).unwrap());
-    for s in d.spans(&t).unwrap() { println!("span {s:?}"); }
-    for i in 0..d.length(&t) { println!("get_marks({i}) = {:?}", d.get_marks(&t, i, None).unwrap().iter().collect::<Vec<_>>()); }
-    let mut d = d;
+    let mut base = AutoCommit::new().with_actor(ActorId::from(vec![0x80u8]));
+    base.put(ROOT, "a", 1).unwrap();
+    base.commit();
+    let mut d = base.fork().with_actor(ActorId::from(vec![0xe0u8]));
+    d.put(ROOT, "x", 1).unwrap();
+    let _ = d.get_changes(&[]); // implicit commit
+    d.put(ROOT, "b", 2).unwrap(); // pending
+    let e = d.empty_change(CommitOptions::default().with_time(5));
+    println!("empty change = {e}");
+    println!("invariants: {:?}", d.verif_check_invariants());
+    let heads = d.get_heads();
+    println!("heads        = {heads:?}");
     for c in d.get_changes(&[]) {
-        let e = c.decode();
-        for (i, op) in e.operations.iter().enumerate() {
-            if format!("{:?}", op.obj).contains("OpId(1,") || true {
-                if matches!(op.action, legacy::OpType::MarkBegin(_) | legacy::OpType::MarkEnd(_)) {
-                    println!("{}@{} {:?} key={:?} insert={} ", e.start_op.get() + i as u64, &e.actor_id.to_hex_string()[..4], op.action, op.key, op.insert);
-                }
-            }
-        }
+        println!("  change {} seq {} ops {} deps {:?}", c.hash(), c.seq(), c.len(), c.deps());
     }
 }
